@@ -54,6 +54,43 @@ MUTANTS = [
     ("C20", "position-ignored", P + "rdgridspace.py", "        position_index = self.get_cell_index(position)\n        return self.cell_env[position_index]", "        return self.cell_env[int(position)]", "C20.POS"),
     ("C20", "mandatory-label-optional", P + "rdnetwork.py", "    else : raise ValueError(\"missing species label.\")", "    else : da[\"label\"] = None", "C20.MAND"),
     ("C20", "policy-accepts-floor", P + "rdscript.py", "[\"auto\", \"none\", \"Poisson\", \"redist\"]:", "[\"auto\", \"none\", \"Poisson\", \"redist\", \"floor \"]:", "C20.ENUM"),
+    # ---- C02
+    ("C02", "one-sided-move", E + "TauLeap3D.hpp", "                    if(! mesh_chstt[j*n_species+s])\n                        {\n                        mesh_x[j*n_species+s] += mesh_nd[i*6*n_species+s*6+n];\n                        }", "", "C02.PAIR"),
+    ("C02", "unequal-amounts", E + "TauLeapGraph.hpp", "                        mesh_x[j*n_species+s] += mesh_nd[i][s*mesh_neighbor_n[i]+n];", "                        mesh_x[j*n_species+s] += mesh_nd[i][s*mesh_neighbor_n[i]];", "C02.PAIR"),
+    ("C02", "wrong-destination", E + "Gillespie3D.hpp", "        int j = mesh_neighbors[mesh_index*6+direction];", "        int j = mesh_neighbors[mesh_index*6+opposed_direction[direction]];", "C02.PAIR"),
+    ("C02", "species-dependent-firing", E + "TauLeap3D.hpp", "mesh_x[i*n_species+j] += sto[j*n_reactions+r]*mesh_nr[i*n_reactions+r];", "mesh_x[i*n_species+j] += sto[j*n_reactions+r]*mesh_nr[i*n_reactions+j];", "C02.STO"),
+    ("C02", "flux-not-opposed", E + "SimulationAlgorithm3DBase.hpp", "DiffusionRate(mesh_neighbors[src_mesh_index*6+direction], species_index, opposed_direction[direction]);", "DiffusionRate(mesh_neighbors[src_mesh_index*6+direction], species_index, direction);", "C02.ANTISYM"),
+    ("C02", "kd-in-own-volume", E + "SimulationAlgorithmGraphBase.hpp", "mesh_kd_in [i][s*mesh_neighbor_n[i]+n] = Dij * mesh_neighbor_sfc[i][n] / (mesh_vol[j] * mesh_neighbor_dst[i][n]);", "mesh_kd_in [i][s*mesh_neighbor_n[i]+n] = Dij * mesh_neighbor_sfc[i][n] / (mesh_vol[i] * mesh_neighbor_dst[i][n]);", "C02.ANTISYM"),
+    ("C02", "new-state-writer", E + "SimulationAlgorithmGraphBase.hpp", "    void CheckTMax()\n      {", "    void CheckTMax()\n      {\n      if(t<0) mesh_x[0] = 0;", "C02.WRITERS"),
+    # ---- C07
+    ("C07", "propensity-x-squared", E + "SimulationAlgorithm3DBase.hpp", "                    a *= (mesh_x[mesh_index*n_species+s]-q);", "                    a *= (mesh_x[mesh_index*n_species+s]);", "C07.PROP"),
+    ("C07", "two-events", E + "Gillespie3D.hpp", "                        ApplyReaction(i, j);\n                        break;", "                        ApplyReaction(i, j);", "C07.ONE-EVENT"),
+    ("C07", "search-shorter-than-sum", E + "Gillespie3D.hpp", "                    for(int n=0; n<6; n++)\n                        {\n                        a_cumul += mesh_ad", "                    for(int n=0; n<5; n++)\n                        {\n                        a_cumul += mesh_ad", "C07.PARTITION"),
+    ("C07", "diffusion-moves-two", E + "GillespieGraph.hpp", "            mesh_x[j*n_species+species_index] += 1;", "            mesh_x[j*n_species+species_index] += 2;", "C07.UNIT-MOVE"),
+    ("C07", "poisson-mean-without-dt", E + "TauLeap3D.hpp", "mesh_nr[i*n_reactions+r] = Poisson(ReactionProp(i, r)*dt);", "mesh_nr[i*n_reactions+r] = Poisson(ReactionProp(i, r));", "C07.TAU"),
+    ("C07", "a0-misses-diffusion", E + "GillespieGraph.hpp", "                a0 += mesh_ad[i][s*mesh_neighbor_n[i]+n];\n", "", "C07.PARTITION"),
+    ("C07", "decrement-other-species", E + "Gillespie3D.hpp", "            mesh_x[mesh_index*n_species+species_index] -= 1;", "            mesh_x[mesh_index*n_species] -= 1;", "C07.SRC-DEC"),
+    ("C07", "wrong-volume-exponent", E + "SimulationAlgorithmGraphBase.hpp", "pow(mesh_vol[i],1-q);", "pow(mesh_vol[i],q-1);", "C07.DIM"),
+    ("C07", "sufficiency-other-reaction", E + "SimulationAlgorithmGraphBase.hpp", "            if (mesh_x[mesh_index*n_species+s] >= sub[s*n_reactions+reaction_index])", "            if (mesh_x[mesh_index*n_species+s] >= sub[s*n_reactions])", "C07.PROP"),
+    # ---- C08
+    ("C08", "reseed-in-iterate", E + "TauLeap3D.hpp", "        Compute_nevt();\n        Apply_nevt();\n        t += dt;", "        rng = std::mt19937(0);\n        Compute_nevt();\n        Apply_nevt();\n        t += dt;", "C08.RNG"),
+    ("C08", "local-static", E + "Gillespie3D.hpp", "        double r = uiud(rng)*a0;", "        static int calls = 0; calls++;\n        double r = uiud(rng)*a0;", "C08.SRC"),
+    ("C08", "clock-in-iterate", E + "engine.cpp", "extern \"C\" int engineexport_iterate()\n    {\n    if(global_algo_freed) return 0;\n    bool unfinished = true;", "extern \"C\" int engineexport_iterate()\n    {\n    if(global_algo_freed) return 0;\n    bool unfinished = (std::chrono::system_clock::now().time_since_epoch().count() != 0);", "C08.SRC"),
+    ("C08", "random-elsewhere", P + "librdengine.py", "                ctypes.c_int(script.rng_seed),\n\n            #init_state_processing\n                ctypes.c_char_p(script.init_state_processing.encode()),\n                                \n            #option", "                ctypes.c_int(random.randint(0, 10)),\n\n            #init_state_processing\n                ctypes.c_char_p(script.init_state_processing.encode()),\n                                \n            #option", "C08.PY-SEED"),
+    ("C08", "init-forgets-field", E + "SimulationAlgorithmGraphBase.hpp", "        this->last_tsi_ratio = -1; // rather than 0, to allow for t0 sampling.\n\n        this->t = 0.0;", "        this->t = 0.0;", "C08.INIT-ALL"),
+    ("C08", "driver-samples", E + "engine.cpp", "        else if (global_space_type == 1) unfinished = global_graph_algo->Iterate();\n        if(!unfinished)\n            break;", "        else if (global_space_type == 1) { unfinished = global_graph_algo->Iterate(); global_graph_algo->Sample(); }\n        if(!unfinished)\n            break;", "C08.SLICE"),
+    ("C08", "euler-draws", E + "EulerGraph.hpp", "                mesh_x[i*n_species+j] += mesh_dxdt[i*n_species+j]*dt;", "                mesh_x[i*n_species+j] += mesh_dxdt[i*n_species+j]*dt*(1+0*uiud(rng));", "C08.EULER"),
+    ("C08", "stale-space-type", E + "engine.cpp", "    global_space_type = 1;\n    int n_meshes = n_nodes;", "    int n_meshes = n_nodes;", "C08.GLOBALS"),
+    # ---- C09
+    ("C09", "sample-before-step", E + "TauLeapGraph.hpp", "        Compute_nevt();\n        Apply_nevt();\n        t += dt;\n        SamplingStep();", "        SamplingStep();\n        Compute_nevt();\n        Apply_nevt();\n        t += dt;", "C09.ORDER"),
+    ("C09", "push-state-only", E + "SimulationAlgorithm3DBase.hpp", "          sampled_t.push_back(t);\n", "", "C09.PAIR-PUSH"),
+    ("C09", "policy-codes-swapped", E + "engine.cpp", "    else if(CompareStr(sampling_policy, \"on_iteration\")) sampling_policy_code = 1;\n    else if(CompareStr(sampling_policy, \"on_interval\" )) sampling_policy_code = 2;\n    else if(CompareStr(sampling_policy, \"no_sampling\" )) sampling_policy_code = 3;\n    else return 3;\n\n    // option\n    if      (CompareStr(option, \"gillespie\"))   {global_graph_algo",
+     "    else if(CompareStr(sampling_policy, \"on_iteration\")) sampling_policy_code = 2;\n    else if(CompareStr(sampling_policy, \"on_interval\" )) sampling_policy_code = 1;\n    else if(CompareStr(sampling_policy, \"no_sampling\" )) sampling_policy_code = 3;\n    else return 3;\n\n    // option\n    if      (CompareStr(option, \"gillespie\"))   {global_graph_algo", "C09.POLICY-TAB"),
+    ("C09", "output-cell-major", E + "engine.cpp", "                  trajectory_data[n*n_meshes*n_species+ s*n_meshes + i] = trajectory_data_vec[n][i*n_species+s];\n                  }\n              }\n          }\n      return 0;\n      }\n    else", "                  trajectory_data[n*n_meshes*n_species+ i*n_species + s] = trajectory_data_vec[n][i*n_species+s];\n                  }\n              }\n          }\n      return 0;\n      }\n    else", "C09.LAYOUT-OUT"),
+    ("C09", "flag-not-rearmed", E + "Gillespie3D.hpp", "        sampling_done_this_iteration = false; // reset the flag\n", "", "C09.ONCE"),
+    ("C09", "tmax-inclusive", E + "SimulationAlgorithm3DBase.hpp", "      if(t_max>=0 && t>t_max)", "      if(t_max>=0 && t>=t_max)", "C09.HANDLERS"),
+    ("C09", "tmax-default-first", P + "rdscript.py", "            return self.t_sample.get_at(len(self.t_sample)-1)", "            return self.t_sample.get_at(0)", "C09.TMAX"),
+    ("C09", "switch-handlers-swapped", E + "SimulationAlgorithmGraphBase.hpp", "          case 0 : SampleOnTSample(); break;  //sample on t sample\n          case 1 : Sample(); break;           //sample on iteration", "          case 1 : SampleOnTSample(); break;  //sample on t sample\n          case 0 : Sample(); break;           //sample on iteration", "C09.POLICY-TAB"),
     # ---- C03
     ("C03", "tauleap-guard-deleted", E + "TauLeap3D.hpp", "                    if(! mesh_chstt[j*n_species+s])\n                        {\n                        mesh_x[j*n_species+s] += mesh_nd[i*6*n_species+s*6+n];\n                        }",
      "                    mesh_x[j*n_species+s] += mesh_nd[i*6*n_species+s*6+n];", "C03.GUARD-ID"),
